@@ -77,6 +77,7 @@ const (
 	FaultGarbageCert = "garbage-certificate"
 	FaultZeroKey     = "zero-key"
 	FaultMismatch    = "certificate-of-another-key"
+	FaultForeignKey  = "key-of-another-certificate" // the right certificate with a private key that does not belong to it
 	FaultPartial     = "error-after-partial-fill" // SetUserinfo*: some setters were already called when the error is returned
 	FaultEmptyID     = "ok-with-empty-id" // CreateAuthRequest only
 	FaultCtxDeadline = "error-context-deadline"
@@ -155,6 +156,13 @@ func (s *Store) UnregisterSP(entityID string) {
 func (s *Store) SetAppEntity(appID, entityID string) {
 	s.mu.Lock()
 	s.apps[appID] = entityID
+	s.mu.Unlock()
+}
+
+// RemoveApp forgets the application -> entity mapping (GetEntityIDByAppID answers "application not found").
+func (s *Store) RemoveApp(appID string) {
+	s.mu.Lock()
+	delete(s.apps, appID)
 	s.mu.Unlock()
 }
 
@@ -354,6 +362,8 @@ func (s *Store) keyAnswer(idx int, fault string, base *key.CertificateAndKey) (*
 		return &key.CertificateAndKey{Certificate: base.Certificate, Key: &rsa.PrivateKey{}}, nil
 	case FaultMismatch:
 		return &key.CertificateAndKey{Certificate: SPB.DER, Key: base.Key}, nil
+	case FaultForeignKey:
+		return &key.CertificateAndKey{Certificate: base.Certificate, Key: SPB.RSA}, nil
 	}
 	panic("world: unknown key fault " + fault)
 }
